@@ -23,8 +23,10 @@ Hypotheses of the theorems:
   guard. **This is why the four main theorems are `_partial`**: at present the table holds
   the Boolean/core family (and, or, not, iff, implies, ite, equals on non-array sorts, le, lt,
   forall, exists, function, toreal, symbols, constants) and the arithmetic family (plus,
-  times, minus, div). Missing: the bit-vector, string and array operators and `Equals` between
-  array-sorted terms (bit-vector / string-array families in preparation: adding them changes
+  times, minus, div) and the bit-vector family (all 27 `walk_bv_*` rules, every width; `zext` /
+  `sext` on the nodes whose width payload is operand width + step, as the constructors build
+  them: `BVRules.extGuard`). Missing: the string and array operators and `Equals` between
+  array-sorted terms (string-array families in preparation: adding them changes
   `ruleOf` and `ruleOf_ok` only), and `pow` / algebraic constants, which have no semantics
   (known finding F05). The statements themselves need no change when the table grows.
 -/
@@ -107,10 +109,16 @@ theorem perm_times (I : Interp) (hI : I.WF) (l₁ l₂ : List Term) (p : Payload
     eval I (.node .times l₁ p) = eval I (.node .times l₂ p) ∧ (Term.node .times l₂ p).wf = true :=
   ⟨eval_perm_times I hI h hwf, wf_perm_times h hwf⟩
 
-/-- the operators that have a rule so far (what `inFrag` admits, up to the guard of `equals`) -/
+/-- the operators that have a rule so far (what `inFrag` admits, up to the guards of `equals`, of the array
+operators — index sort not an array sort — and of `bvZext`/`bvSext`) -/
 theorem fragment_ops (op : Op) : (ruleOf op).isSome = true ↔
     op ∈ [.and, .or, .not, .iff, .implies, .ite, .equals, .le, .lt, .forall_, .exists_, .function, .toReal,
-          .symbol, .boolConst, .intConst, .realConst, .strConst, .bvConst, .plus, .times, .minus, .div] := by
+          .symbol, .boolConst, .intConst, .realConst, .strConst, .bvConst, .plus, .times, .minus, .div,
+          .strLength, .strConcat, .strCharAt, .strContains, .strIndexOf, .strReplace, .strSubstr, .strPrefixOf,
+          .strSuffixOf, .strToInt, .intToStr, .arraySelect, .arrayStore, .arrayValue,
+          .bvAnd, .bvOr, .bvXor, .bvNot, .bvNeg, .bvAdd, .bvSub, .bvMul, .bvUdiv, .bvUrem, .bvSdiv, .bvSrem,
+          .bvLshl, .bvLshr, .bvAshr, .bvUlt, .bvUle, .bvSlt, .bvSle, .bvComp, .bvConcat, .bvExtract, .bvRol,
+          .bvRor, .bvZext, .bvSext, .bvToNatural] := by
   cases op <;> simp [ruleOf]
 
 /-! ## non-vacuity: concrete non-trivial terms meeting the hypotheses -/
